@@ -60,7 +60,11 @@ def obj(index, db, rep):
         rep.check(bool(got), rule, f"add_maximize_min_month_objective_to_model[months{t.mc}|{envname(t)}]",
                   "the max-min objective variable is not bounded above by this month's consumed kcals", loc=OPT)
     # objective of the model is the objective variable, sense is maximise
-    fn = index.func(OPT, "Optimizer.add_variables_and_constraints_to_model")
+    from .c01 import order as _order_rule  # noqa: F401  (same builder, same flattened view)
+    fn = index.flat_func(OPT, "Optimizer.add_variables_and_constraints_to_model", keep=(
+        "add_variable_from_prefixes", "add_resource_specific_conditions_to_model", "add_feed_biofuel_to_model",
+        "add_total_human_consumption_to_model", "add_percentage_intake_constraints", "add_maximize_min_month_objective_to_model",
+        "add_maximize_sum_total_feed_used_by_animals", "add_conditions_to_model", "load_variable_names_and_prefixes"))
     objs = [s for s in walk_no_nested(fn) if isinstance(s, ast.AugAssign) and isinstance(s.target, ast.Name)
             and s.target.id == "model" and not isinstance(s.value, ast.Tuple)]
     ok = len(objs) == 1 and norm_src(objs[0].value) == "variables['objective_function']" and \
@@ -207,7 +211,10 @@ def animal(db, rep):
 def read(index, rep):
     """percent fed is read from the first solve, after the success assertion, before any re-optimisation"""
     rule = "C02.READ"
-    fn = index.func(OPT, "Optimizer.run_optimizations_on_constraints")
+    # reporting / asserting helpers the driver delegates to are read as part of it; the LP steps stay calls
+    fn = index.flat_func(OPT, "Optimizer.run_optimizations_on_constraints", keep=(
+        "constrain_next_optimization_to_have_same_minimum_starvation", "constrain_next_optimization_to_have_same_feed_biofuel",
+        "optimize_best_food_consumption_to_go_to_humans", "reduce_fluctuations_with_a_final_optimization"))
     body = fn.body
     first_solve = read_i = first_helper = assert_i = None
     ret = None
